@@ -100,6 +100,10 @@ Filter ==
 (* Consolidate: group by package in MAP order; Merge = union or Conflict.         *)
 PkgsOf(ls) == {ls[i].pkg : i \in DOMAIN ls}
 Group(ls, p) == SelectSeq(ls, LAMBDA s : s.pkg = p)
+(* A definition is the WHOLE declared content of an object: name, comments, self reference, passes trail and the complete *)
+(* type tree (kind, nullable, default, hints, constraints, field names / required / comments, enum members, reference    *)
+(* targets, constant values) - that is what Object.Equal compares. Two same-package definitions that differ in ANY of   *)
+(* these are a conflict; an abstract definition here stands for one such content.                                        *)
 Collides(a, b) == \E n \in DOMAIN a \cap DOMAIN b : a[n] # b[n]
 MergeObjs(a, b) == IF "overwrite" \in Faults THEN b @@ a ELSE a @@ b       \* a @@ b: a's definitions win (they are equal unless Collides)
 GroupConflict(g) == \E i, j \in DOMAIN g : i < j /\ Collides(g[i].objs, g[j].objs)
